@@ -461,9 +461,9 @@ func runC15(c *Ctx) {
 	}
 	// the trivial crash point (no crash, just a reopen) after merges that form several groups, one of which
 	// fails: judged on the Go side only (the Coq crash model covers single-group merges)
-	nMG := c.pick(10, 80)
+	nMG := c.pick(16, 80)
 	for i := 0; i < nMG; i++ {
-		c15MultiGroupMergeFault(c, filepath.Join(scratch, fmt.Sprintf("mg%d", i)), i)
+		c15MultiGroupMergeFault(c, filepath.Join(scratch, fmt.Sprintf("mg%d", i)), i, "C15", "c15-crash")
 	}
 	if !immutableProbe.ok {
 		c.rep.Notes = append(c.rep.Notes, "immutable-directory faults (rename failures) not available on this platform")
@@ -785,6 +785,7 @@ type c15FaultStore struct {
 	failAt int
 	writes int
 	fired  bool
+	cancel context.CancelFunc // when set, the failAt-th Write cancels the merge's context instead of failing
 }
 
 type c15FaultWriter struct {
@@ -801,6 +802,10 @@ func (w c15FaultWriter) Write(p []byte) (int, error) {
 		s.writes++
 		if n == s.failAt {
 			s.fired = true
+			if s.cancel != nil {
+				s.cancel() // the caller gives up on the merge; the store itself ignores the context
+				return w.WriteCloser.Write(p)
+			}
 			k, _ := w.WriteCloser.Write(p[:len(p)/2])
 			return k, errC15Write
 		}
@@ -827,7 +832,7 @@ func (s *c15FaultStore) CreateFile(ctx context.Context) (io.WriteCloser, []byte,
 // Files of 2-3 partitions, 2-3 single-partition files each, so that one Merge call forms one group per
 // partition; a write fault somewhere in the merge (or none). Whatever Merge returns, a fresh store and
 // engine over the directory must return every acknowledged row exactly once with a nil error.
-func c15MultiGroupMergeFault(c *Ctx, dir string, idx int) {
+func c15MultiGroupMergeFault(c *Ctx, dir string, idx int, prop, sig string) {
 	defer func() {
 		if r := recover(); r != nil {
 			c.mismatch("harness-panic", fmt.Sprintf("multi-group merge scenario %d: %v", idx, r), nil)
@@ -870,12 +875,19 @@ func c15MultiGroupMergeFault(c *Ctx, dir string, idx int) {
 	}
 	store.armed = c.chance(0.85)
 	store.failAt = c.intn(10 * nParts)
-	_, mergeErr := eng.Merge(ctx)
+	mctx, mcancel := context.WithCancel(ctx)
+	mode := "write-fault"
+	if idx%2 == 1 {
+		mode = "caller-cancels"
+		store.cancel = mcancel
+	}
+	_, mergeErr := eng.Merge(mctx)
+	mcancel()
 	store.armed = false
 	stopCtx, cancel := context.WithTimeout(ctx, 10*time.Second)
 	must(eng.Stop(stopCtx))
 	cancel()
-	c.dist("c15_multigroup_merge", fmt.Sprintf("groups=%d fault_fired=%v merge_err=%v", nParts, store.fired, mergeErr != nil))
+	c.dist("c15_multigroup_merge", fmt.Sprintf("groups=%d %s fired=%v merge_err=%v", nParts, mode, store.fired, mergeErr != nil))
 
 	st2 := bs.NewFileSystemDataStore(dir)
 	eng2, err := bs.NewBloomSearchEngine(bs.DefaultBloomSearchEngineConfig(), st2, st2)
@@ -922,9 +934,9 @@ func c15MultiGroupMergeFault(c *Ctx, dir string, idx int) {
 	if len(invented) > 0 {
 		problems = append(problems, fmt.Sprintf("rows %v were never acknowledged", invented))
 	}
-	desc := map[string]any{"kind": "multigroup-merge", "partitions": nParts, "rows": next, "fault_armed_at_write": store.failAt, "fault_fired": store.fired, "merge_err": fmt.Sprint(mergeErr)}
-	c.count([]string{"C15"}, fmt.Sprintf("mg %d %d %d %v %v", idx, nParts, next, store.fired, mergeErr != nil), store.fired, desc)
+	desc := map[string]any{"kind": "multigroup-merge", "mode": mode, "partitions": nParts, "rows": next, "fault_armed_at_write": store.failAt, "fault_fired": store.fired, "merge_err": fmt.Sprint(mergeErr)}
+	c.count([]string{prop}, fmt.Sprintf("mg %d %d %d %v %v", idx, nParts, next, store.fired, mergeErr != nil), store.fired, desc)
 	if len(problems) > 0 {
-		c.violation("c15-crash", fmt.Sprintf("multi-group merge %d (write fault fired=%v, Merge error=%v), then a reopen: %s", idx, store.fired, mergeErr != nil, strings.Join(problems, "; ")), desc)
+		c.violation(sig, fmt.Sprintf("multi-group merge %d (%s at write %d, fired=%v, Merge error=%v), then a reopen: %s", idx, mode, store.failAt, store.fired, mergeErr != nil, strings.Join(problems, "; ")), desc)
 	}
 }
